@@ -1,6 +1,78 @@
-"""Model self-validation run by setup.sh (each check also runs the subset it needs)."""
+"""Model self-validation: known-answer vectors from the RFCs / specifications. Run by setup.sh; each check
+runs the subset it needs before producing any verdict. A failure here is a machinery error."""
+
+
+def _eq(got, want, what):
+    if isinstance(got, (bytes, bytearray)):
+        got = bytes(got).hex()
+    if got != want:
+        raise AssertionError("model KAT failed: %s: got %s want %s" % (what, got, want))
+
+
+SUNSCREEN = (b"Ladies and Gentlemen of the class of '99: If I could offer you only one tip for the future, "
+             b"sunscreen would be it.")
+
+
+def check_stream():
+    from . import stream
+    key = bytes(range(32))
+    # RFC 8439 2.3.2 block function
+    s = stream.Stream("chacha", 20, key, bytes.fromhex("000000090000004a00000000"))
+    _eq(s.keystream(1, 0, 64), "10f1e7e4d13b5915500fdd1fa32071c4c7d1f4c733c068030422aa9ac3d46c4e"
+        "d2826446079faa0914c2d705d98b02a2b5129cd1de164eb9cbd083e8a2503c4e", "RFC8439 2.3.2")
+    # RFC 8439 2.4.2 encryption
+    s = stream.Stream("chacha", 20, key, bytes.fromhex("000000000000004a00000000"))
+    ct = stream.xor(SUNSCREEN, s.keystream(1, 0, len(SUNSCREEN)))
+    _eq(ct[:32], "6e2e359a2568f98041ba0728dd0d6981e97e7aec1d4360c20a27afccfd9fae0b", "RFC8439 2.4.2")
+    _eq(ct[-10:], "b40b8eedf2785e42874d", "RFC8439 2.4.2 tail")
+    # draft-irtf-cfrg-xchacha 2.2.1 (HChaCha20) and A.3.2 (XChaCha20, first ciphertext bytes of "The dhole")
+    _eq(stream.hchacha(key, bytes.fromhex("000000090000004a0000000031415927"), 20),
+        "82413b4227b27bfed30e42508a877d73a0f9e4d58a74a853c12ec41326d3ecdc", "HChaCha20")
+    s = stream.Stream("xchacha", 20, bytes(range(0x80, 0xa0)), bytes.fromhex("404142434445464748494a4b4c4d4e4f5051525354555658"))
+    _eq(stream.xor(b"The dhole (prono", s.keystream(0, 0, 16)), "4559abba4e48c16102e8bb2c05e6947f", "XChaCha20 A.3.2")
+    # original ChaCha20, draft-agl-tls-chacha20poly1305-04 vectors (also in the repository's tests)
+    s = stream.Stream("chachao", 20, bytes(32), bytes(8))
+    _eq(s.keystream(0, 0, 16), "76b8e0ada0f13d90405d6ae55386bd28", "ChaCha20 original zero key")
+    s = stream.Stream("chachao", 20, bytes(range(32)), bytes(range(8)))
+    _eq(s.keystream(0, 0, 16), "f798a189f195e66982105ffb640bb775", "ChaCha20 original 00..1f")
+    # Salsa20 ECRYPT set 1 vector 0
+    s = stream.Stream("salsa", 20, bytes([128] + [0] * 31), bytes(8))
+    _eq(s.keystream(0, 0, 16), "e3be8fdd8beca2e3ea8ef9475b29a6e7", "Salsa20/256 set1 v0")
+    s = stream.Stream("salsa", 20, bytes([128] + [0] * 15), bytes(8))
+    _eq(s.keystream(0, 0, 16), "4dfa5e481da23ea09a31022050859936", "Salsa20/128 set1 v0")
+    # XSalsa20 (NaCl secretbox test: first keystream bytes, from the NaCl paper "firstkey"/"nonce")
+    firstkey = bytes.fromhex("1b27556473e985d462cd51197a9a46c76009549eac6474f206c4ee0844f68389")
+    nonce = bytes.fromhex("69696ee955b62b73cd62bda875fc73d68219e0036b7a0b37")
+    s = stream.Stream("xsalsa", 20, firstkey, nonce)
+    _eq(s.keystream(0, 0, 32), "eea6a7251c1e72916d11c2cb214d3c252539121d8e234e652d651fa4c8cff880", "XSalsa20 NaCl")
+
+
+def check_poly():
+    from . import poly
+    k = bytes.fromhex("85d6be7857556d337f4452fe42d506a80103808afb0db2fd4abff6af4149f51b")
+    _eq(poly.poly1305(k, b"Cryptographic Forum Research Group"), "a8061dc1305136c6c22b8baf0c0127a9", "RFC8439 2.5.2")
+    # RFC 8439 A.3 #5..#11 (wrap-around cases)
+    v = [("02000000000000000000000000000000" + "00" * 16, "ff" * 16, "03000000000000000000000000000000"),
+         ("02000000000000000000000000000000" + "ff" * 16, "02000000000000000000000000000000", "03000000000000000000000000000000"),
+         ("01000000000000000000000000000000" + "00" * 16, "ff" * 16 + "f0" + "ff" * 15 + "11" + "00" * 15, "05000000000000000000000000000000"),
+         ("01000000000000000000000000000000" + "00" * 16, "ff" * 16 + "fb" + "fe" * 15 + "01" * 16, "00000000000000000000000000000000"),
+         ("02000000000000000000000000000000" + "00" * 16, "fd" + "ff" * 15, "faffffffffffffffffffffffffffffff"),
+         ("01000000000000000400000000000000" + "00" * 16,
+          "e33594d7505e43b900000000000000003394d7505e4379cd01000000000000000000000000000000000000000000000001000000000000000000000000000000",
+          "14000000000000005500000000000000"),
+         ("01000000000000000400000000000000" + "00" * 16,
+          "e33594d7505e43b900000000000000003394d7505e4379cd010000000000000000000000000000000000000000000000",
+          "13000000000000000000000000000000")]
+    for i, (k, m, t) in enumerate(v):
+        _eq(poly.poly1305(bytes.fromhex(k), bytes.fromhex(m)), t, "RFC8439 A.3 #%d" % (i + 5))
+    key = bytes(range(0x80, 0xa0))
+    ct, tag = poly.aead_encrypt(key, bytes.fromhex("070000004041424344454647"), bytes.fromhex("50515253c0c1c2c3c4c5c6c7"), SUNSCREEN)
+    _eq(tag, "1ae10b594f09e26a7e902ecbd0600691", "RFC8439 2.8.2 tag")
+    _eq(ct[:16], "d31a8d34648e60db7b86afbc53ef7ec2", "RFC8439 2.8.2 ct")
 
 
 def run_all():
     from . import hashes
     hashes.self_check(thorough=True)
+    check_stream()
+    check_poly()
